@@ -11,7 +11,9 @@
            comparisons, Bool connectives, String concatenation, locals, if / while / return,
            method calls, println; second generation: user classes with single inheritance and
            method overriding, objects with one immutable Int field, dynamically dispatched
-           sends, list literals, for-in loops, Symbol / Char / nil values and dynamic inspect)
+           sends, list literals, for-in loops, Symbol / Char / nil values and dynamic inspect;
+           third generation: bounded Int range literals with the four operators ... ..< <.. <.<,
+           range values in locals, for-in over a range)
            with the reference interpreter S (fuel; output trace and outcome).  S computes on
            mathematical integers and dispatches sends on the RUNTIME class of the receiver
            (own method first, then the nearest ancestor's).
@@ -138,6 +140,9 @@ Definition hcmp_spec (o : hcmp) (a b : Z) : bool :=
 
 Inductive cop := CLt | CLe | CGt | CGe | CEq | CNe.
 
+(* the four bounded range operators: closed `...`, right-open `..<`, left-open `<..`, open `<.<` *)
+Inductive rop := RClosed | RRightOpen | RLeftOpen | ROpen.
+
 Inductive expr :=
 | EInt (z : Z)
 | EBool (b : bool)
@@ -158,7 +163,8 @@ Inductive expr :=
 | ENew (c : nat) (k : expr)            (* K<c>(k): instance of user class c, field @k := k *)
 | EField                               (* @k of self (slot 0 of a class method) *)
 | ESend (r : expr) (name : nat) (args : list expr)   (* r.n<name>(args), dynamic dispatch *)
-| EList (es : list expr).              (* [e, ...] *)
+| EList (es : list expr)               (* [e, ...] *)
+| ERange (o : rop) (a b : expr).       (* a...b  a..<b  a<..b  a<.<b  (Int bounds) *)
 
 Inductive stmt :=
 | SAssign (x : nat) (e : expr)
@@ -181,7 +187,19 @@ Inductive val :=
 | VInt (z : Z) | VBool (b : bool) | VStr (s : string)
 | VSym (s : string) | VChar (s : string) | VNil
 | VObj (c : nat) (k : Z)               (* instance of class c with field @k = k *)
-| VList (l : list val).
+| VList (l : list val)
+| VRange (o : rop) (a b : Z).          (* a bounded Int range value *)
+
+(* the integers a range with Int bounds describes, in iteration order: from a (closed start) or
+   a + 1 (open start) up to b (closed end) or b - 1 (open end), step 1; empty when the first
+   exceeds the last *)
+Definition range_first (o : rop) (a : Z) : Z :=
+  match o with RClosed | RRightOpen => a | RLeftOpen | ROpen => a + 1 end.
+Definition range_last (o : rop) (b : Z) : Z :=
+  match o with RClosed | RLeftOpen => b | RRightOpen | ROpen => b - 1 end.
+Definition relements (o : rop) (a b : Z) : list Z :=
+  let lo := range_first o a in
+  map (fun i => lo + Z.of_nat i) (seq 0 (Z.to_nat (range_last o b - lo + 1))).
 
 (* method lookup by runtime class: the class's own method of that name, else the nearest
    ancestor's; d bounds the length of the ancestor chain walked *)
@@ -240,6 +258,7 @@ Definition inspect_val (v : val) : option string :=
   | VNil => Some "nil"%string
   | VObj _ _ => None
   | VList _ => None
+  | VRange _ _ _ => None
   end.
 
 Definition cop_eval (o : cop) (a b : Z) : bool :=
@@ -395,6 +414,13 @@ Fixpoint eval (fuel : nat) (p : prog) (env : list val) (out : list string) (e : 
           end)
     | EList es =>
         rbind (map_eval (fun o e1 => eval n p env o e1) es out) (fun vs out1 => ROk (VList vs) out1)
+    | ERange o a b =>
+        rbind (eval n p env out a) (fun va out1 =>
+        rbind (eval n p env out1 b) (fun vb out2 =>
+          match va, vb with
+          | VInt x, VInt y => ROk (VRange o x y) out2
+          | _, _ => RStuck out2
+          end))
     end
   end
 with exec (fuel : nat) (p : prog) (env : list val) (out : list string) (ss : list stmt) {struct fuel}
@@ -441,11 +467,20 @@ with exec (fuel : nat) (p : prog) (env : list val) (out : list string) (ss : lis
           rbind (eval n p env out e) (fun v out1 => ROk (FReturn v) out1)
       | SExpr e =>
           rbind (eval n p env out e) (fun _ out1 => exec n p env out1 rest)
-      | SForIn x e b =>
+      | SForIn x e b0 =>
           rbind (eval n p env out e) (fun v out1 =>
             match v with
             | VList l =>
-                rbind (iter_list (fun v1 env1 o1 => exec n p (set_nth x v1 env1) o1 b) l env out1)
+                rbind (iter_list (fun v1 env1 o1 => exec n p (set_nth x v1 env1) o1 b0) l env out1)
+                  (fun fl out2 =>
+                    match fl with
+                    | FReturn r => ROk (FReturn r) out2
+                    | FNormal env' => exec n p env' out2 rest
+                    end)
+            | VRange o a b =>
+                (* a range is iterated over exactly the integers it describes, in order *)
+                rbind (iter_list (fun v1 env1 o1 => exec n p (set_nth x v1 env1) o1 b0)
+                         (map VInt (relements o a b)) env out1)
                   (fun fl out2 =>
                     match fl with
                     | FReturn r => ROk (FReturn r) out2
